@@ -56,13 +56,10 @@ func ReadAsUint8Slice[T any](r Reader, c []T) (n int64, err error) {
 }
 
 // Read reads a slice of bytes from r and copies it on c.
+// It returns an error if fewer than len(c) bytes could be read.
 func Read(r Reader, c []byte) (n int64, err error) {
-	slice, err := r.Peek(len(c))
-	if err != nil {
-		return int64(len(slice)), err
-	}
-	copy(c, slice)
-	nint, err := r.Discard(len(c))
+	// Not Peek + Discard: len(c) may exceed the size of the internal buffer of r.
+	nint, err := io.ReadFull(r, c)
 	return int64(nint), err
 }
 
@@ -87,8 +84,10 @@ func ReadUint8(r Reader, c *uint8) (n int64, err error) {
 }
 
 // ReadUint8Slice reads a slice of byte from r and stores the result into c.
+// It returns an error if fewer than len(c) bytes could be read.
 func ReadUint8Slice(r Reader, c []uint8) (n int64, err error) {
-	nint, err := r.Read(c)
+	// A single r.Read may return fewer bytes than requested without an error.
+	nint, err := io.ReadFull(r, c)
 	return int64(nint), err
 }
 
